@@ -259,3 +259,245 @@ Qed.
 End OnePoll.
 
 End Step.
+
+(* ------------------------------------------------------------------------------------------ *)
+(* the one-line repair of the monitor, and the exclusion under which the monitor as it stands is sound *)
+
+(* a poll that ends Offline is a poll after which the station is a fresh one (set_offline inside the poll, or a
+   station that is offline anyway): forget the last GAP request *)
+Definition sweep_poll_fixed (p : params) (k0 : state_kind) (last : option Z) (s : pstep) : option Z * list srule :=
+  let (l, e) := sweep_poll p k0 last s in
+  (if state_kind_eqb (v_kind (s_view s)) KOffline then None else l, e).
+
+Fixpoint smonitor_from_fixed (p : params) (i : nat) (k0 : state_kind) (last : option Z) (events : list FdlOracle.event) : list (nat * srule) :=
+  match events with
+  | [] => []
+  | e :: tl =>
+      match e with
+      | EApi a v =>
+          let errs := match a, tl with
+                      | (ApiOffline | ApiNew), EPanic :: _ => []
+                      | (ApiOffline | ApiNew), _ => if fresh_view (p_address p) v then [] else [P12_offline_forgets_ring]
+                      | _, _ => []
+                      end in
+          let last' := match a with ApiOffline | ApiNew => None | _ => last end in
+          map (fun r => (i, r)) errs ++ smonitor_from_fixed p (S i) (v_kind v) last' tl
+      | EPoll s =>
+          let (last', errs) := sweep_poll_fixed p k0 last s in
+          map (fun r => (i, r)) errs ++ smonitor_from_fixed p (S i) (v_kind (s_view s)) last' tl
+      | EPanic | ETimeout => smonitor_from_fixed p (S i) k0 last tl
+      end
+  end.
+
+Definition smonitor_fixed (p : params) (events : list FdlOracle.event) : list (nat * srule) :=
+  if builder_validb p then smonitor_from_fixed p 0 KOffline None events else [].
+
+(* no poll of the transcript ends Offline out of another state (k0: state kind of the previous view) *)
+Fixpoint no_self_offline (k0 : state_kind) (events : list FdlOracle.event) : bool :=
+  match events with
+  | [] => true
+  | EApi _ v :: tl => no_self_offline (v_kind v) tl
+  | EPoll s :: tl =>
+      (negb (state_kind_eqb (v_kind (s_view s)) KOffline) || state_kind_eqb k0 KOffline) &&
+      no_self_offline (v_kind (s_view s)) tl
+  | _ :: tl => no_self_offline k0 tl
+  end.
+
+Lemma api_errs_nil (ts : Z) (a : api_call) (v : view) (tl : list FdlOracle.event) :
+  (a = ApiOffline \/ a = ApiNew -> fresh_view ts v = true) ->
+  match a, tl with
+  | (ApiOffline | ApiNew), EPanic :: _ => []
+  | (ApiOffline | ApiNew), _ => if fresh_view ts v then [] else [P12_offline_forgets_ring]
+  | _, _ => []
+  end = [].
+Proof.
+  intros H. destruct a; try reflexivity; (rewrite H by tauto); destruct tl as [|[ | | | ] ?]; reflexivity.
+Qed.
+
+Lemma smonitor_from_api p i k0 last a v tl :
+  (a = ApiOffline \/ a = ApiNew -> fresh_view (p_address p) v = true) ->
+  smonitor_from p i k0 last (EApi a v :: tl) =
+  smonitor_from p (S i) (v_kind v) (match a with ApiOffline | ApiNew => None | _ => last end) tl.
+Proof. intros H. cbn [smonitor_from]. rewrite api_errs_nil by exact H. reflexivity. Qed.
+
+Lemma smonitor_from_fixed_api p i k0 last a v tl :
+  (a = ApiOffline \/ a = ApiNew -> fresh_view (p_address p) v = true) ->
+  smonitor_from_fixed p i k0 last (EApi a v :: tl) =
+  smonitor_from_fixed p (S i) (v_kind v) (match a with ApiOffline | ApiNew => None | _ => last end) tl.
+Proof. intros H. cbn [smonitor_from_fixed]. rewrite api_errs_nil by exact H. reflexivity. Qed.
+
+Lemma kind_eqb_offline s : state_kind_eqb (kind_of s) KOffline = true <-> s = Offline.
+Proof. destruct s; cbn; split; intros H; try discriminate H; reflexivity. Qed.
+
+(* ------------------------------------------------------------------------------------------ *)
+(* ONE POLL, as theorems over all station states                                                *)
+
+(* the invariant that ties the monitor state to the station *)
+Definition sweep_inv (f : fdl) (k0 : state_kind) (last : option Z) : Prop :=
+  k0 = kind_of (f_state f) /\ forall a0, last = Some a0 -> f_gap f = GapDoPoll a0 /\ f_state f <> Offline.
+
+Section StepTheorems.
+Variable A : Type.
+Variable ops : app_ops A.
+Variable p : params.
+Hypothesis Happs : apps_total A ops.
+
+Lemma poll_keeps_rep f now busy rxb (apps : list A) f' o apps' calls :
+  Rep (length apps) f -> f_p f = p -> time_ok now -> all_bytes rxb ->
+  poll ops f now (mkPhyIn busy rxb) apps = Ok (f', o, apps', calls) ->
+  Rep (length apps') f' /\ f_p f' = p.
+Proof.
+  intros R Hp Hnow Hrx E.
+  destruct (poll_rep_step A ops Happs f now (mkPhyIn busy rxb) apps R Hnow Hrx) as (f'' & o'' & apps'' & c'' & E' & R' & L').
+  rewrite E in E'. injection E' as <- <- <- <-. split; [rewrite L'; exact R'|].
+  rewrite (poll_keeps_parameters A ops _ _ _ _ _ _ _ _ E). exact Hp.
+Qed.
+
+(* the monitor as it stands: one poll that does not end Offline out of another state *)
+Theorem sweep_step_sound f now busy rxb (apps : list A) f' o apps' calls k0 last :
+  Rep (length apps) f -> f_p f = p -> time_ok now -> all_bytes rxb -> sweep_inv f k0 last ->
+  poll ops f now (mkPhyIn busy rxb) apps = Ok (f', o, apps', calls) ->
+  (f_state f' = Offline -> f_state f = Offline) ->
+  let s := poll_event now busy rxb f' o calls in
+  snd (sweep_poll p k0 last s) = [] /\
+  Rep (length apps') f' /\ f_p f' = p /\ sweep_inv f' (v_kind (s_view s)) (fst (sweep_poll p k0 last s)).
+Proof.
+  intros R Hp Hnow Hrx (-> & HL) E Hex s.
+  destruct (sweep_core A ops p f f' now busy rxb apps apps' o calls R Hp E last HL) as (H1 & H2). fold s in H1, H2.
+  split; [exact H1|]. destruct (poll_keeps_rep _ _ _ _ _ _ _ _ _ R Hp Hnow Hrx E) as (R' & Hp').
+  split; [exact R'|]. split; [exact Hp'|]. split; [reflexivity|].
+  intros a Ha. destruct (H2 a Ha) as (G1 & G2).
+  assert (Hn : f_state f' <> Offline) by (intros C; exact (G2 C (Hex C))).
+  split; [exact (G1 Hn)|exact Hn].
+Qed.
+
+(* the repaired monitor: every poll *)
+Theorem sweep_step_fixed_sound f now busy rxb (apps : list A) f' o apps' calls k0 last :
+  Rep (length apps) f -> f_p f = p -> time_ok now -> all_bytes rxb -> sweep_inv f k0 last ->
+  poll ops f now (mkPhyIn busy rxb) apps = Ok (f', o, apps', calls) ->
+  let s := poll_event now busy rxb f' o calls in
+  snd (sweep_poll_fixed p k0 last s) = [] /\
+  Rep (length apps') f' /\ f_p f' = p /\ sweep_inv f' (v_kind (s_view s)) (fst (sweep_poll_fixed p k0 last s)).
+Proof.
+  intros R Hp Hnow Hrx (-> & HL) E s.
+  destruct (sweep_core A ops p f f' now busy rxb apps apps' o calls R Hp E last HL) as (H1 & H2). fold s in H1, H2.
+  unfold sweep_poll_fixed. destruct (sweep_poll p (kind_of (f_state f)) last s) as [l e]. cbn [fst snd] in *.
+  split; [exact H1|]. destruct (poll_keeps_rep _ _ _ _ _ _ _ _ _ R Hp Hnow Hrx E) as (R' & Hp').
+  split; [exact R'|]. split; [exact Hp'|]. split; [reflexivity|].
+  intros a Ha. cbn [s poll_event s_view view_of v_kind] in Ha.
+  destruct (state_kind_eqb (kind_of (f_state f')) KOffline) eqn:Ek; [discriminate Ha|].
+  assert (Hn : f_state f' <> Offline) by (intros C; apply kind_eqb_offline in C; rewrite C in Ek; discriminate Ek).
+  destruct (H2 a Ha) as (G1 & _). split; [exact (G1 Hn)|exact Hn].
+Qed.
+
+End StepTheorems.
+
+(* ------------------------------------------------------------------------------------------ *)
+(* TRANSCRIPTS                                                                                  *)
+
+Section Transcripts.
+Variable A : Type.
+Variable ops : app_ops A.
+Variable p : params.
+Hypothesis Happs : apps_total A ops.
+Hypothesis Hbv : builder_valid p.
+
+Lemma sweep_inv_api a f f' last :
+  api_result p a f = Ok f' -> sweep_inv f (kind_of (f_state f)) last ->
+  sweep_inv f' (v_kind (view_of f')) (match a with ApiOffline | ApiNew => None | _ => last end) /\
+  (a = ApiOffline \/ a = ApiNew -> fdl_new p = Ok f' \/ fdl_new (f_p f) = Ok f').
+Proof.
+  intros Ea (_ & HL). destruct a; cbn [api_result] in Ea.
+  - split; [split; [reflexivity|discriminate]|]. intros _. left. exact Ea.
+  - unfold set_online, set_state in Ea. injection Ea as <-. split; [|intros [C|C]; discriminate C].
+    split; [reflexivity|]. exact HL.
+  - split; [split; [reflexivity|discriminate]|]. intros _. right. exact Ea.
+  - discriminate Ea.
+Qed.
+
+Theorem smonitor_from_sound : forall ins f apps buf tl i last,
+  RJ A p f apps buf -> sweep_inv f (kind_of (f_state f)) last -> ins_ok tl ins ->
+  no_self_offline (kind_of (f_state f)) (model_events A ops p f apps buf ins) = true ->
+  smonitor_from p i (kind_of (f_state f)) last (model_events A ops p f apps buf ins) = [].
+Proof.
+  induction ins as [|x ins IH]; intros f apps buf tl i last HJ HI Hok Hex; [reflexivity|].
+  destruct x as [a|now busy nb]; cbn [model_events] in *; cbn [ins_ok] in Hok.
+  - destruct (api_result p a f) as [f'| |] eqn:Ea.
+    + cbn [no_self_offline] in Hex. destruct (sweep_inv_api a f f' last Ea HI) as (HI' & Hnew).
+      rewrite smonitor_from_api.
+      * exact (IH _ _ _ _ _ _ (rj_api A p Hbv _ _ _ _ _ HJ Ea) HI' Hok Hex).
+      * intros Ha. destruct HJ as (_ & Hp & _).
+        destruct (Hnew Ha) as [En|En]; [|rewrite Hp in En]; exact (fdl_new_fresh _ _ En).
+    + destruct a; reflexivity.
+    + destruct a; reflexivity.
+  - destruct Hok as (_ & Hnow & Hnb & Hok).
+    destruct (poll ops f now (mkPhyIn busy (buf ++ nb)) apps) as [[[[f' o] apps'] calls]| |] eqn:Ep; try reflexivity.
+    cbn [smonitor_from no_self_offline] in *.
+    apply andb_true_iff in Hex. destruct Hex as (Hex1 & Hex).
+    assert (Hself : f_state f' = Offline -> f_state f = Offline).
+    { intros C. cbn [poll_event s_view view_of v_kind] in Hex1. rewrite C in Hex1. cbn in Hex1. apply kind_eqb_offline. exact Hex1. }
+    destruct HJ as (R & Hp & Hb).
+    assert (Hrx : all_bytes (buf ++ nb)) by (unfold all_bytes in *; apply Forall_app; split; assumption).
+    destruct (sweep_step_sound A ops p Happs f now busy (buf ++ nb) apps f' o apps' calls _ last R Hp Hnow Hrx HI Ep Hself) as (H1 & _ & _ & HI').
+    destruct (sweep_poll p (kind_of (f_state f)) last (poll_event now busy (buf ++ nb) f' o calls)) as [last' errs].
+    cbn [fst snd] in H1, HI'. subst errs. cbn [map app].
+    exact (IH _ _ _ _ _ _ (rj_poll A ops p Happs _ _ _ _ _ _ _ _ _ _ (conj R (conj Hp Hb)) Hnow Hnb Ep) HI' Hok Hex).
+Qed.
+
+Theorem smonitor_from_fixed_sound : forall ins f apps buf tl i last,
+  RJ A p f apps buf -> sweep_inv f (kind_of (f_state f)) last -> ins_ok tl ins ->
+  smonitor_from_fixed p i (kind_of (f_state f)) last (model_events A ops p f apps buf ins) = [].
+Proof.
+  induction ins as [|x ins IH]; intros f apps buf tl i last HJ HI Hok; [reflexivity|].
+  destruct x as [a|now busy nb]; cbn [model_events] in *; cbn [ins_ok] in Hok.
+  - destruct (api_result p a f) as [f'| |] eqn:Ea.
+    + destruct (sweep_inv_api a f f' last Ea HI) as (HI' & Hnew).
+      rewrite smonitor_from_fixed_api.
+      * exact (IH _ _ _ _ _ _ (rj_api A p Hbv _ _ _ _ _ HJ Ea) HI' Hok).
+      * intros Ha. destruct HJ as (_ & Hp & _).
+        destruct (Hnew Ha) as [En|En]; [|rewrite Hp in En]; exact (fdl_new_fresh _ _ En).
+    + destruct a; reflexivity.
+    + destruct a; reflexivity.
+  - destruct Hok as (_ & Hnow & Hnb & Hok).
+    destruct (poll ops f now (mkPhyIn busy (buf ++ nb)) apps) as [[[[f' o] apps'] calls]| |] eqn:Ep; try reflexivity.
+    cbn [smonitor_from_fixed] in *.
+    destruct HJ as (R & Hp & Hb).
+    assert (Hrx : all_bytes (buf ++ nb)) by (unfold all_bytes in *; apply Forall_app; split; assumption).
+    destruct (sweep_step_fixed_sound A ops p Happs f now busy (buf ++ nb) apps f' o apps' calls _ last R Hp Hnow Hrx HI Ep) as (H1 & _ & _ & HI').
+    destruct (sweep_poll_fixed p (kind_of (f_state f)) last (poll_event now busy (buf ++ nb) f' o calls)) as [last' errs].
+    cbn [fst snd] in H1, HI'. subst errs. cbn [map app].
+    exact (IH _ _ _ _ _ _ (rj_poll A ops p Happs _ _ _ _ _ _ _ _ _ _ (conj R (conj Hp Hb)) Hnow Hnb Ep) HI' Hok).
+Qed.
+
+End Transcripts.
+
+(* the monitor as the check runs it, on the transcripts on which no poll ends Offline out of another state *)
+Theorem sweep_monitor_sound (A : Type) (ops : app_ops A) (p : params) :
+  apps_total A ops ->
+  forall (apps : list A) (ins : list minput), ins_ok 0 ins ->
+  no_self_offline KOffline (model_transcript A ops p apps ins) = true ->
+  smonitor p (model_transcript A ops p apps ins) = [].
+Proof.
+  intros Happs apps ins Hok Hex. unfold smonitor. destruct (builder_validb p) eqn:Eb; [|reflexivity].
+  apply builder_validb_valid in Eb. unfold model_transcript in *.
+  destruct (fdl_new p) as [f0| |] eqn:E0; try reflexivity.
+  cbn [no_self_offline] in Hex. rewrite smonitor_from_api by (intros _; exact (fdl_new_fresh _ _ E0)).
+  assert (HI : sweep_inv f0 (kind_of (f_state f0)) None) by (split; [reflexivity|discriminate]).
+  exact (smonitor_from_sound A ops p Happs Eb ins f0 apps [] 0 1%nat None
+           (rj_new A p Eb _ _ _ E0 (Forall_nil _)) HI Hok Hex).
+Qed.
+
+(* the repaired monitor: every model transcript *)
+Theorem sweep_monitor_fixed_sound (A : Type) (ops : app_ops A) (p : params) :
+  apps_total A ops ->
+  forall (apps : list A) (ins : list minput), ins_ok 0 ins ->
+  smonitor_fixed p (model_transcript A ops p apps ins) = [].
+Proof.
+  intros Happs apps ins Hok. unfold smonitor_fixed. destruct (builder_validb p) eqn:Eb; [|reflexivity].
+  apply builder_validb_valid in Eb. unfold model_transcript in *.
+  destruct (fdl_new p) as [f0| |] eqn:E0; try reflexivity.
+  rewrite smonitor_from_fixed_api by (intros _; exact (fdl_new_fresh _ _ E0)).
+  assert (HI : sweep_inv f0 (kind_of (f_state f0)) None) by (split; [reflexivity|discriminate]).
+  exact (smonitor_from_fixed_sound A ops p Happs Eb ins f0 apps [] 0 1%nat None
+           (rj_new A p Eb _ _ _ E0 (Forall_nil _)) HI Hok).
+Qed.
